@@ -375,7 +375,7 @@ def gen_classes(rng, nev):
     decorated and undecorated classes mixed; every mapping sends event e to a
     method m >= e (termination of re-entrant scripts, see gen_case)."""
     while True:
-        ncls = rng.choice([1, 2, 2, 3, 3, 4, 5])
+        ncls = rng.choice([1, 2, 2, 3, 3, 4, 4, 5])
         classes = []
         for ci in range(ncls):
             r = rng.random()
@@ -397,6 +397,16 @@ def gen_classes(rng, nev):
             rng.shuffle(names)
             defs = [n for n in range(nev + 1) if rng.random() < 0.3] if bases else []
             classes.append(dict(bases=bases, names=names, maps=maps, defs=defs))
+        if ncls >= 4 and rng.random() < 0.6:
+            # a diamond: the first base of class 3 owns no mapping, a later class of its MRO does
+            first, second = (1, 2) if rng.random() < 0.7 else (2, 1)
+            classes[0]['bases'] = []
+            classes[1]['bases'] = [0]
+            classes[2]['bases'] = [0]
+            classes[3]['bases'] = [first, second]
+            classes[first]['names'], classes[first]['maps'] = [], []
+            if not classes[second]['names'] and not classes[second]['maps']:
+                classes[second]['maps'] = [[0, rng.randint(1, nev)]]
         if linearise(classes) is None:
             continue
         if any(m is not None for m in final_mappings(classes)):
